@@ -928,3 +928,72 @@ Theorem early_directive_values U me pre h a b v q :
 Proof.
   intros Hin Hq. destruct (dirs_sound U true false me _ _ _ _ _ Hin Hq) as (H1 & H2 & H3 & H4 & _). auto.
 Qed.
+
+(* ---- start-up: link callbacks ---- *)
+(* The tables (everything but the running directives) evolve independently of
+   the directives. *)
+Definition teq (s s' : state) : Prop :=
+  st_peer s = st_peer s' /\ st_links s = st_links s' /\ st_by_peer s = st_by_peer s' /\
+  st_closed s = st_closed s' /\ st_ready s = st_ready s'.
+
+Lemma teq_set_dirs s d : teq (set_dirs s d) s.
+Proof. repeat split. Qed.
+
+Lemma teq_trans a b c : teq a b -> teq b c -> teq a c.
+Proof. unfold teq. intros (?&?&?&?&?) (?&?&?&?&?). repeat split; congruence. Qed.
+
+Lemma teq_sym a b : teq a b -> teq b a.
+Proof. unfold teq. intros (?&?&?&?&?). repeat split; congruence. Qed.
+
+Lemma teq_core U s s' a : teq s s' -> teq (core U s a) (core U s' a).
+Proof.
+  destruct s as [p l b c d r], s' as [p' l' b' c' d' r']. unfold teq. cbn.
+  intros (-> & -> & -> & -> & ->).
+  destruct a as [q|q|? ?|]; cbn [core]; [| |repeat split|repeat split].
+  - unfold do_est, insert, flush, close_only, peer_links. cbn.
+    destruct (Z.eqb _ p'); [repeat split|].
+    destruct (aget _ l') as [x|]; [destruct (Nat.eqb x q)|]; repeat split.
+  - unfold do_lost, flush, peer_links. cbn.
+    destruct (aget _ l') as [x|]; [destruct (Nat.eqb x q)|]; try (repeat split; fail);
+      destruct (find_val q l'); repeat split.
+Qed.
+
+Lemma teq_step U lb s s' a : teq s s' -> teq (fst (step_gen U lb s a)) (fst (step_gen U lb s' a)).
+Proof.
+  intros H. destruct (step_core U lb s a) as [d ->]. destruct (step_core U lb s' a) as [d' ->].
+  eapply teq_trans; [apply teq_set_dirs|]. eapply teq_trans; [apply teq_core, H|].
+  apply teq_sym, teq_set_dirs.
+Qed.
+
+Lemma teq_run U lb h : forall s s', teq s s' -> teq (run_gen U lb s h) (run_gen U lb s' h).
+Proof.
+  induction h as [|a h IH]; intros s s' H; [exact H|].
+  cbn [run_gen fold_left]. apply (IH (fst (step_gen U lb s a)) (fst (step_gen U lb s' a))), teq_step, H.
+Qed.
+
+Lemma requests_only_tables U lb pre : forall s,
+  forallb is_request pre = true -> teq (run_gen U lb s pre) s.
+Proof.
+  induction pre as [|a pre IH]; intros s Hp; [repeat split|].
+  cbn [forallb] in Hp. apply andb_true_iff in Hp as [Ha Hp]. destruct a; try discriminate.
+  cbn [run_gen fold_left]. eapply teq_trans; [apply IH, Hp|].
+  destruct (step_core U lb s (Resolve src dst)) as [d ->]. apply teq_set_dirs.
+Qed.
+
+(* HandleLinkEstablished calls made before or while the transport is being
+   constructed block until it is, so their lock regions run after Ready (in any
+   order: [k] is arbitrary).  The tables, the closed links (self-dials
+   included) and the readiness are then exactly those of a controller that was
+   constructed first and received the same callbacks: nothing is decided
+   against the not-yet-initialised controller. *)
+Theorem startup_tables_irrelevant U lb me pre k :
+  forallb is_request pre = true ->
+  teq (run_gen U lb (init0 me) (pre ++ Ready :: k)) (run_gen U lb (init me) k).
+Proof.
+  intros Hp. unfold run_gen at 1. rewrite fold_left_app. cbn [fold_left].
+  change (teq (run_gen U lb (fst (step_gen U lb (run_gen U lb (init0 me) pre) Ready)) k) (run_gen U lb (init me) k)).
+  apply teq_run. cbn [step_gen fst].
+  eapply teq_trans; [apply teq_set_dirs|].
+  pose proof (requests_only_tables U lb pre (init0 me) Hp) as (H1 & H2 & H3 & H4 & _).
+  unfold teq, set_ready. cbn. rewrite H1, H2, H3, H4. repeat split.
+Qed.
